@@ -2179,6 +2179,10 @@ impl<'a, W: Write + 'a> Serializer<'a, W> {
                     }; //Savefile always serializes most recent version. Only savefile-abi ever writes old formats.
                     data.serialize(&mut serializer)?;
                     compressed_writer.flush()?;
+                    // Finish the stream here: errors while writing the end of the stream
+                    // would otherwise be swallowed when the encoder is dropped.
+                    compressed_writer.try_finish()?;
+                    compressed_writer.get_mut().flush()?;
                     return Ok(());
                 }
                 #[cfg(not(feature = "bzip2"))]
